@@ -41,7 +41,7 @@ COMPOUND = {
 KEYWORDS = set("""
 abstract access action advance all allocatable allocate assign assignment associate asynchronous backspace bind blank
 block blockdata call case character class close codimension common complex concurrent contains contiguous continue critical
-cycle data deallocate default deferred delim dimension direct do double elemental else elseif elsewhere encoding end endfile
+cycle data deallocate decimal default deferred delim dimension direct do double elemental else elseif elsewhere encoding end endfile
 enddo endif entry enum enumerator eor equivalence err errmsg error exist exit extends external file final flush fmt forall form format
 formatted function generic go goto id if implicit import impure in include inout inquire integer intent interface intrinsic
 iolength iomsg iostat is kind len logical module mold name named namelist newunit nextrec nml non_intrinsic non_overridable none nopass
@@ -50,6 +50,24 @@ private procedure program protected public pure read readwrite real rec recl rec
 sequence sequential sign size source stat status stop stream submodule subroutine sync target then to type unformatted unit use value volatile
 wait where while write c
 sin cos tan abs merge real cmplx null size trim adjustl repeat mod int nint max min reshape index
+""".split())
+# the intrinsic procedures of Fortran 2003/2008 (generic and specific names, written down from the
+# standards, not read from fparser): fparser2 prints a recognised intrinsic name in upper case
+KEYWORDS |= set("""
+abs achar acos acosh adjustl adjustr aimag aint all allocated anint any asin asinh associated atan atan2 atanh
+bessel_j0 bessel_j1 bessel_jn bessel_y0 bessel_y1 bessel_yn bge bgt ble blt bit_size btest ceiling char cmplx
+command_argument_count conjg cos cosh count cpu_time cshift date_and_time dble digits dim dot_product dprod dshiftl dshiftr
+eoshift epsilon erf erfc erfc_scaled execute_command_line exp exponent extends_type_of findloc floor fraction gamma
+get_command get_command_argument get_environment_variable huge hypot iachar iall iand iany ibclr ibits ibset ichar ieor
+image_index index int ior iparity is_contiguous is_iostat_end is_iostat_eor ishft ishftc kind lbound lcobound leadz len len_trim
+lge lgt lle llt log log_gamma log10 logical maskl maskr matmul max maxexponent maxloc maxval merge merge_bits min minexponent
+minloc minval mod modulo move_alloc mvbits nearest new_line nint norm2 not null num_images pack parity popcnt poppar
+precision present product radix random_number random_seed range real repeat reshape rrspacing same_type_as scale scan
+selected_char_kind selected_int_kind selected_real_kind set_exponent shape shifta shiftl shiftr sign sin sinh size spacing
+spread sqrt storage_size sum system_clock tan tanh this_image tiny trailz transfer transpose trim ubound ucobound unpack verify
+alog alog10 amax0 amax1 amin0 amin1 amod cabs ccos cexp clog csin csqrt dabs dacos dasin datan datan2 dcos dcosh ddim dexp
+dint dlog dlog10 dmax1 dmin1 dmod dnint dsign dsin dsinh dsqrt dtan dtanh float iabs idim idint idnint ifix isign max0 max1 min0 min1 sngl
+c_associated c_f_pointer c_f_procpointer c_funloc c_loc c_sizeof
 """.split())
 # note: `c` is the language-binding-spec keyword of BIND(C); `real/size/...` double as intrinsics.
 
@@ -88,6 +106,20 @@ def norm(tokens):
                 out.append(t.lower())
         # token boundaries inside edit descriptors depend on blanks: compare the character stream
         return ["".join(o if o[:1] in "'\"" else o for o in out)]
+    # IF (cond) action-stmt: the action statement is canonicalised as a statement of its own
+    h = 1 if tokens and tokens[0][0] == "num" else 0
+    if len(tokens) > h + 3 and tokens[h][1].lower() == "if" and tokens[h + 1][1] == "(":
+        depth = 0
+        for j in range(h + 1, len(tokens)):
+            if tokens[j][1] in "([":
+                depth += 1
+            elif tokens[j][1] in ")]":
+                depth -= 1
+                if depth == 0:
+                    break
+        rest = tokens[j + 1:]
+        if rest and rest[0][0] == "name" and rest[0][1].lower() != "then" and (len(rest) < 2 or rest[1][1] not in ("=", "%", "=>")):
+            return norm(tokens[:j + 1]) + norm(rest)
     seq = []
     for k, t in tokens:
         if k == "str":
